@@ -73,6 +73,12 @@ def layeredStructs (layers : Nat) : String :=
     let i := toString (k + 1); let j := toString k
     "struct A" ++ i ++ " { a: A" ++ j ++ ", b: B" ++ j ++ " }\nstruct B" ++ i ++ " { a: A" ++ j ++ ", b: Sequence<B" ++ j ++ "> }\n")
 
+/-- compact structs, each containing all later ones, the first used as a dictionary key -/
+def denseCompactKey (n : Nat) : String :=
+  "module M\n" ++ String.join ((List.range n).map fun i =>
+    "compact struct S" ++ toString i ++ " { " ++ String.join (((List.range n).filter (· > i)).map fun j => "f" ++ toString j ++ ": S" ++ toString j ++ " ") ++
+      (if i + 1 == n then "z: bool " else "") ++ "}\n") ++ "struct D { d: Dictionary<S0, bool> }\ninterface I { op(p: Dictionary<S1, S0>) }\n"
+
 /-- every struct contains (optionally) every other one -/
 def completeDigraph (n : Nat) : String :=
   "module M\n" ++ String.join ((List.range n).map fun i =>
@@ -162,6 +168,8 @@ def genC01 (tier : Tier) (seed : Nat) (o : Out) : IO Unit := do
   for n in [10, 18, 26, 40, 80] do
     o.line (anyCase "regress-d05e-layered-inheritance" "-" [layeredIfaces n])
     o.line (anyCase "layered-structs" "-" [layeredStructs n])
+  for n in [12, 20, 28, 40] do
+    o.line (anyCase "regress-d01h-dense-compact-key" "-" [denseCompactKey n])
   -- dense CYCLIC graphs: every simple cycle through the checked type is enumerated (open finding D-05d)
   for n in [3, 5, 7] do
     o.line (anyCase ("complete" ++ toString n) "-" [completeDigraph n])
